@@ -502,32 +502,30 @@ class Lexer(object):
         'LINE_TERMINATOR',
     ) + keywords
 
-    # adapted from https://bitbucket.org/ned/jslex
-    t_regex_REGEX = r"""(?:
+    # ES5 7.8.5: no line terminator may occur inside the literal
+    regex_body = r"""(?:
         /                       # opening slash
         # First character is..
-        (?: [^*\\/[]            # anything but * \ / or [
-        |   \\.                 # or an escape sequence
+        (?: [^*\\/[\n\r\u2028\u2029]    # anything but * \ / [ or a newline
+        |   \\[^\n\r\u2028\u2029]       # or an escape sequence
         |   \[                  # or a class, which has
-                (?: [^\]\\]     # anything but \ or ]
-                |   \\.         # or an escape sequence
+                (?: [^\]\\\n\r\u2028\u2029]   # anything but \ ] or newline
+                |   \\[^\n\r\u2028\u2029]     # or an escape sequence
                 )*              # many times
             \]
         )
         # Following characters are same, except for excluding a star
-        (?: [^\\/[]             # anything but \ / or [
-        |   \\.                 # or an escape sequence
+        (?: [^\\/[\n\r\u2028\u2029]     # anything but \ / [ or a newline
+        |   \\[^\n\r\u2028\u2029]       # or an escape sequence
         |   \[                  # or a class, which has
-                (?: [^\]\\]     # anything but \ or ]
-                |   \\.         # or an escape sequence
+                (?: [^\]\\\n\r\u2028\u2029]   # anything but \ ] or newline
+                |   \\[^\n\r\u2028\u2029]     # or an escape sequence
                 )*              # many times
             \]
         )*                      # many times
         /                       # closing slash
-        [a-zA-Z0-9]*            # trailing flags
         )
         """
-
 
     def t_regex_error(self, token):
         raise ECMARegexSyntaxError(
@@ -665,6 +663,10 @@ class Lexer(object):
         r'|' + CONNECTOR_PUNCTUATION + r')*'
     )
     identifier = identifier_start + identifier_part
+
+    # adapted from https://bitbucket.org/ned/jslex; the trailing flags are
+    # IdentifierPart characters (ES5 7.8.5 RegularExpressionFlags)
+    t_regex_REGEX = regex_body + identifier_part
 
     getprop = r'get' + r'(?=\s' + identifier + r')'
 
